@@ -61,6 +61,8 @@ from .quantizers import binary
 from .quantizers import bernoulli
 from .quantizers import get_weight_scale
 from .quantizers import quantized_bits
+from .quantizers import quantized_hswish
+from .quantizers import quantized_linear
 from .quantizers import quantized_relu
 from .quantizers import quantized_ulaw
 from .quantizers import quantized_tanh
@@ -1099,6 +1101,8 @@ def _add_supported_quantized_objects(custom_objects):
   custom_objects["quantized_sigmoid"] = quantized_sigmoid
   custom_objects["quantized_po2"] = quantized_po2
   custom_objects["quantized_relu_po2"] = quantized_relu_po2
+  custom_objects["quantized_linear"] = quantized_linear
+  custom_objects["quantized_hswish"] = quantized_hswish
   # custom_objects["quantized_bits_learnable_scale"] = quantized_bits_learnable_scale
 
   custom_objects["QConv2DBatchnorm"] = QConv2DBatchnorm
